@@ -1,0 +1,97 @@
+// Copyright 2017-2021 Lei Ni (nilei81@gmail.com) and other contributors.
+//
+// Licensed under the Apache License, Version 2.0 (the "License");
+// you may not use this file except in compliance with the License.
+// You may obtain a copy of the License at
+//
+//     http://www.apache.org/licenses/LICENSE-2.0
+//
+// Unless required by applicable law or agreed to in writing, software
+// distributed under the License is distributed on an "AS IS" BASIS,
+// WITHOUT WARRANTIES OR CONDITIONS OF ANY KIND, either express or implied.
+// See the License for the specific language governing permissions and
+// limitations under the License.
+
+//go:build verif
+// +build verif
+
+package dragonboat
+
+// This file is only compiled with the `verif` build tag. It lets a
+// deterministic simulation harness kept outside of this repository drive the
+// shipped snapshotter (the rsm.ISnapshotter used by every node) directly,
+// without a NodeHost. Nothing is reimplemented here: every method forwards to
+// the unexported snapshotter / LogReader methods the node itself invokes.
+
+import (
+	"github.com/lni/dragonboat/v4/internal/logdb"
+	"github.com/lni/dragonboat/v4/internal/rsm"
+	"github.com/lni/dragonboat/v4/internal/server"
+	"github.com/lni/dragonboat/v4/internal/vfs"
+	"github.com/lni/dragonboat/v4/raftio"
+	pb "github.com/lni/dragonboat/v4/raftpb"
+)
+
+// VerifSnapshotter is the shipped snapshotter together with the LogReader it
+// reads the most recent snapshot record from. The exported methods of the
+// snapshotter (Save, Load, Stream, Shrunk, GetSnapshot, IsNoSnapshotError,
+// Commit, Shrink, Compact, GetSnapshotFromLogDB) are promoted as they are.
+type VerifSnapshotter struct {
+	*snapshotter
+}
+
+var _ rsm.ISnapshotter = (*VerifSnapshotter)(nil)
+
+// NewVerifSnapshotter wires a snapshotter exactly as NodeHost.startShard does:
+// a LogReader over the given log store with the snapshotter as its compactor.
+func NewVerifSnapshotter(shardID uint64, replicaID uint64,
+	root func(shardID uint64, replicaID uint64) string,
+	ldb raftio.ILogDB, fs vfs.IFS) *VerifSnapshotter {
+	lr := logdb.NewLogReader(shardID, replicaID, ldb)
+	ss := newSnapshotter(shardID, replicaID,
+		server.SnapshotDirFunc(root), ldb, lr, fs)
+	lr.SetCompactor(ss)
+	return &VerifSnapshotter{snapshotter: ss}
+}
+
+// VerifCreated is what node.doSave does after a successful Commit: the
+// snapshot record becomes the LogReader's most recent snapshot (and the
+// previous one is released, which compacts its directory).
+func (s *VerifSnapshotter) VerifCreated(ss pb.Snapshot) error {
+	return s.logReader.CreateSnapshot(ss)
+}
+
+// VerifInstalled is what the step worker does with a snapshot received from a
+// remote replica: the record is saved to the log store and applied to the
+// LogReader (node.processSnapshot).
+func (s *VerifSnapshotter) VerifInstalled(ss pb.Snapshot) error {
+	if err := s.saveSnapshot(ss); err != nil {
+		return err
+	}
+	return s.logReader.ApplySnapshot(ss)
+}
+
+// VerifReplay is the snapshot part of node.replayLog, executed on restart: the
+// most recent snapshot record of the log store is applied to the LogReader.
+func (s *VerifSnapshotter) VerifReplay() (pb.Snapshot, error) {
+	ss, err := s.GetSnapshotFromLogDB()
+	if err != nil && !s.IsNoSnapshotError(err) {
+		return pb.Snapshot{}, err
+	}
+	if !pb.IsEmptySnapshot(ss) {
+		if err := s.logReader.ApplySnapshot(ss); err != nil {
+			return pb.Snapshot{}, err
+		}
+	}
+	return ss, nil
+}
+
+// VerifProcessOrphans is the directory clean up executed on restart.
+func (s *VerifSnapshotter) VerifProcessOrphans() error {
+	return s.processOrphans()
+}
+
+// VerifFilePath is the path of the snapshot file with the given index.
+func (s *VerifSnapshotter) VerifFilePath(index uint64) string {
+	return s.getFilePath(index)
+}
